@@ -581,7 +581,19 @@ async fn closing(r: &mut Rng) -> (String, String) {
                             let _ = recv_all_now(&mut ra_fill).await;
                         }
                     }
+                    let sender_alive = !sender_task.is_finished();
                     rx.close().await;
+                    if cancelled_close && sender_alive {
+                        // the close must reach the other endpoint: ReceiveClose for this port on the wire
+                        for _ in 0..4 {
+                            quiesce().await;
+                        }
+                        let frames = p_net.b2a.log_from(0);
+                        let told = conn::group(&frames).iter().any(|m| matches!(m.msg, remoc::chmux::verif::MultiplexMsg::ReceiveClose { .. }));
+                        if !told {
+                            return (sig, "FAIL: C11 close() returned (after an earlier close() had been cancelled while waiting for the event queue) but the remote sender was never told".into());
+                        }
+                    }
                     if std::env::var("VH_DEBUG").is_ok() { eprintln!("closed"); }
                 } else {
                     rx_opt = None;
